@@ -39,6 +39,8 @@ CALL_LIMIT = 20       # seconds; a single public call taking longer is "no resul
 WIDE_LIMIT = 5        # ... in the wide-range stream (a normal call takes < 1 ms)
 _LIMIT = [CALL_LIMIT]
 
+DONOR_FACTOR = {'hydrogen': 1.0, 'deuterium': 1.25, 'helium': 2.5}     # the mock CX rates depend on the donor species
+
 SYMBOLS = ['H', 'He', 'Li', 'Be', 'B', 'C', 'N', 'O', 'F', 'Ne', 'Na', 'Mg', 'Al', 'Si', 'P', 'S', 'Cl', 'Ar']
 
 
@@ -96,27 +98,34 @@ class _Env:
         class Mock(AtomicData):
             """S_i(n,t) = s_i (1 + p t);  alpha_i(n,t) = a_i (1 + q n);  C_i(n,t) = c_i (1 + dq/2) (1 + p t + q n)"""
 
-            def __init__(s, case):
+            def __init__(s, case, tables=None):
                 s.c = case
+                s.tables = tables or {}     # element name -> case (rate tables) for providers shared between calls
                 s.points = []       # (n_e, t_e) seen by the ionisation rate of the neutral, in call order
                 s.queries = []
 
+            def tab(s, el):
+                return s.tables.get(el.name, s.c)
+
             def ionisation_rate(s, el, z):
                 s.queries.append(('ion', el.name, int(z)))
-                p = s.c['p']
-                v = s.c['s'][z]
+                c = s.tab(el)
+                p = c['p']
+                v = c['s'][z]
                 return Ion(lambda n, t: v * (1.0 + p * t), s.points if z == 0 else None)
 
             def recombination_rate(s, el, z):
                 s.queries.append(('rec', el.name, int(z)))
-                q = s.c['q']
-                v = s.c['a'][z - 1]
+                c = s.tab(el)
+                q = c['q']
+                v = c['a'][z - 1]
                 return Rec(lambda n, t: v * (1.0 + q * n))
 
             def thermal_cx_rate(s, donor, dq, rec, z):
                 s.queries.append(('cx', donor.name, dq, rec.name, int(z)))
-                p, q = s.c['p'], s.c['q']
-                v = s.c['c'][z - 1] * (1.0 + 0.5 * dq)
+                c = s.tab(rec)
+                p, q = c['p'], c['q']
+                v = (c['c'][z - 1] * (1.0 + 0.5 * dq)) * DONOR_FACTOR[donor.name]
                 return Cx(lambda n, t: v * (1.0 + p * t + q * n))
 
         self.Mock = Mock
@@ -125,6 +134,11 @@ class _Env:
         if case.get('isotope'):
             return self.deuterium
         return self.elements[case['Z'] - 1]
+
+    def donor(self, case):
+        if not case['donor']:
+            return None
+        return {'hydrogen': self.hydrogen, 'deuterium': self.deuterium, 'helium': self.elements[1]}[case.get('donor_el', 'hydrogen')]
 
     def equilibrium(self):
         if self._eq is None:
@@ -193,7 +207,7 @@ def solver_reference(rec):
         return None
     r = [1.0]
     for j in range(n - 1):
-        if not (A[j + 1][j] > 0 and A[j][j + 1] > 0):
+        if not (A[j + 1][j] >= 0 and A[j][j + 1] > 0):        # (an exact zero ionisation rate is allowed)
             return None
         r.append(r[-1] * (A[j + 1][j] / A[j][j + 1]))
         m = max(r)
@@ -241,12 +255,13 @@ def rates_at(case, n, t):
     p, q = case['p'], case['q']
     S = [v * (1.0 + p * t) for v in case['s']]
     A = [v * (1.0 + q * n) for v in case['a']]
-    C = [(v * (1.0 + 0.5 * case['dq'])) * (1.0 + p * t + q * n) for v in case['c']]
+    C = [v * (1.0 + p * t + q * n) for v in c_eff(case)]
     return S, A, C
 
 
 def c_eff(case):
-    return [v * (1.0 + 0.5 * case['dq']) for v in case['c']]
+    """CX table as the mock provider scales it with the donor charge and the donor species"""
+    return [(v * (1.0 + 0.5 * case['dq'])) * DONOR_FACTOR[case.get('donor_el', 'hydrogen')] for v in case['c']]
 
 
 def exact_fractions(S, A, C, d):
@@ -301,6 +316,7 @@ def gen_point_case(rng, wide=False, Z=None):
     if rng.random() < 0.12 and species:
         species[0] = [ne * 2.0 for _ in species[0]] + [ne]       # more electrons than n_e: clamp branch
     return dict(Z=Z, s=s, a=a, c=c, p=p, q=q, ne=ne, te=te, nD=nD, donor=donor, dq=rng.choice([0, 0, 1]),
+                donor_el=rng.choice(['hydrogen', 'hydrogen', 'deuterium', 'helium']),
                 dens=10 ** rng.uniform(14, 18), species=species, family=fam,
                 isotope=(Z == 1 and rng.random() < 0.3))
 
@@ -323,7 +339,7 @@ def exec_point(env, case):
     """run the three public entry points with scalar inputs; returns dict of observations"""
     ib = env.ib
     el = env.element(case)
-    donor = env.hydrogen if case['donor'] else None
+    donor = env.donor(case)
     kw = dict(tcx_donor=donor, tcx_donor_n=(case['nD'] if (case['donor'] or case['nD']) else None),
               tcx_donor_charge=case['dq'])
     out = {}
@@ -393,6 +409,28 @@ def check_fractions(f, S, A, C, d, donor):
     return bad
 
 
+def neutrality_problem(species, ne, n):
+    """neutrality of the matched element in *relative* terms.  e = n_e minus the electrons of the given species (subtracted in
+    the order the code subtracts them, so e is the same double); returns None or a description.
+    e > 0: sum_z z n_z / e - 1 must vanish (1e-9), whatever the mean charge of the element; e <= 0: all densities zero."""
+    e = ne
+    for sp in species:
+        for i, v in enumerate(sp):
+            e -= i * v
+    if any(math.isnan(x) or math.isinf(x) for x in n):
+        return 'non-finite densities %r' % (n,)
+    charge = sum(z * x for z, x in enumerate(n))
+    if e > 0:
+        rel = charge / e - 1.0
+        if abs(rel) > 1e-9:
+            return ('charge of the matched element %r instead of n_e - given species = %r: (sum Z n + given) / n_e - 1 = %.3g, '
+                    'relative to the element\'s own share %.3g' % (charge, e, (charge - e) / ne, rel))
+        return None
+    if max(n) != 0.0:
+        return 'given species carry at least n_e (n_e - given = %r) but the densities are %r' % (e, n)
+    return None
+
+
 def oracle_point(ctx, case, out, stream):
     """evaluates the property on one point case; reports failing inputs; returns number of problems"""
     Z = case['Z']
@@ -440,7 +478,7 @@ def oracle_point(ctx, case, out, stream):
             fail('fractional_abundance', 'provider-queries', 'ionisation/recombination rates requested for charges %r' % (got,))
         cx = [k for k in q if k[0] == 'cx']
         if donor:
-            if sorted((k[1], k[2], k[4]) for k in cx) != sorted(('hydrogen', case['dq'], z) for z in range(1, Z + 1)):
+            if sorted((k[1], k[2], k[4]) for k in cx) != sorted((case.get('donor_el', 'hydrogen'), case['dq'], z) for z in range(1, Z + 1)):
                 fail('fractional_abundance', 'provider-queries', 'thermal CX rates requested as %r' % (cx,))
     # ---- from_elementdensity
     st, n = out['fd']
@@ -472,21 +510,18 @@ def oracle_point(ctx, case, out, stream):
     elif st != 'ok':
         fail('match_plasma_neutrality', 'raised-' + st, str(n))
     else:
-        if min(n) < 0 or any(math.isnan(x) for x in n):
+        if any(math.isnan(x) for x in n) or min(n) < 0:
             fail('match_plasma_neutrality', 'negative-density', 'min density %r' % min(n))
-        elif others <= case['ne'] * (1 - 1e-9):
-            charge = sum(z * n[z] for z in range(Z + 1))
-            if abs(charge + others - case['ne']) > S_TOL * case['ne']:
-                fail('match_plasma_neutrality', 'neutrality', 'element charge %r + given species %r != n_e %r' % (charge, others, case['ne']))
+        else:
+            pb = neutrality_problem(case['species'], case['ne'], n)
+            if pb:
+                fail('match_plasma_neutrality', 'neutrality', pb)
             tot = sum(n)
-            if tot > 0:
+            if tot > 0 and not math.isinf(tot):
                 for tag, text in check_fractions([x / tot for x in n], S, A, C, d, donor):
                     if tag in ('range', 'sum'):
                         continue
                     fail('match_plasma_neutrality', tag, text, first('cap_mn'))
-        elif others > case['ne'] * (1 + 1e-9):
-            if max(n) != 0.0:
-                fail('match_plasma_neutrality', 'clamp', 'given species exceed n_e but densities are %r' % (n,))
     return nprob
 
 
@@ -539,9 +574,24 @@ def compare_point(ctx, case, out, outs, stream):
                 ctx.count('K-excused:lsq_linear-deviation')
                 continue
             broke(name, dict(line=lines[{'frac': 1, 'fd': 2, 'mn': 3}[name]][:300], model=mod, implementation=v, max_dev=dev, case=case))
+        elif name == 'mn' and not mn_charge_agrees(mod, v):
+            broke('mn', dict(note='charge of the matched element differs between model and implementation', line=lines[3][:300],
+                             model=mod, implementation=v, case=case))
         else:
             dev = max(abs(x - y) for x, y in zip(mod, v)) / sc
-            ctx.extra['max_dev_' + name] = max(ctx.extra.get('max_dev_' + name, 0.0), dev)
+            key = 'max_dev_' + name + ('_extreme' if case.get('family') == 'extreme' else '')
+            ctx.extra[key] = max(ctx.extra.get(key, 0.0), dev)
+
+
+def mn_charge_agrees(mod, impl):
+    """K for neutrality matching, well-conditioned part: the charge carried by the matched element (sum_z z n_z) must agree
+    between model and implementation to 1e-9 whatever the mean charge (the per-state comparison loses resolution when the
+    element is almost neutral, because both sides divide by the mean charge)"""
+    if len(mod) != len(impl) or any(math.isnan(x) or math.isinf(x) for x in list(mod) + list(impl)):
+        return False
+    cm = sum(z * x for z, x in enumerate(mod))
+    ci = sum(z * x for z, x in enumerate(impl))
+    return abs(cm - ci) <= 1e-9 * max(abs(cm), abs(ci))
 
 
 def _mn_amplification(n):
@@ -747,7 +797,7 @@ def exec_profile(env, pc):
     case = pc['case']
     el = env.element(case)
     ad = env.Mock(case)
-    donor = env.hydrogen if case['donor'] else None
+    donor = env.donor(case)
     nd = pc['objs']['nd'] if pc['donor_given'] else None
     o = pc['objs']
     dim = pc['dim']
@@ -800,7 +850,7 @@ def profile_spec_of(pc):
 def scalar_call(env, case, which, ne, te, nd, donor_given, dens=None, species=None):
     """the same physical point through the scalar form of the public entry point; returns the vector over charges or None"""
     ib = env.ib
-    kw = dict(tcx_donor=env.hydrogen if case['donor'] else None, tcx_donor_n=(float(nd) if donor_given else None),
+    kw = dict(tcx_donor=env.donor(case), tcx_donor_n=(float(nd) if donor_given else None),
               tcx_donor_charge=case['dq'])
     ad, el = env.Mock(case), env.element(case)
     if which == 'frac':
@@ -1073,7 +1123,7 @@ def run_entry_agreement(ctx, env, n):
         case = gen_point_case(rng, Z=rng.choice([1, 1, 2, 6, 10, rng.randint(1, 18)]))
         case['isotope'] = False
         el = env.element(case)
-        donor = env.hydrogen if case['donor'] else None
+        donor = env.donor(case)
         dim = rng.choice([1, 1, 2])
         npt = rng.randint(3, 6)
         xs = [1.05 * i / (npt - 1) for i in range(npt)]
@@ -1192,6 +1242,9 @@ def run_entry_agreement(ctx, env, n):
                 else:
                     ctx.disagreements += 1
                     ctx.broke('correspondence', 'C09 stream mn-profile', dict(index=k, model=mod, implementation=impl, **desc))
+            elif not mn_charge_agrees(mod, impl):
+                ctx.disagreements += 1
+                ctx.broke('correspondence', 'C09 stream mn-profile', dict(note='charge of the matched element differs', index=k, model=mod, implementation=impl, **desc))
             _oracle_match_only(ctx, cs, impl, desc, k, rec)
 
 
@@ -1199,14 +1252,13 @@ def _oracle_match_only(ctx, cs, n, desc, k, rec=None):
     Z = cs['Z']
     S, A, C = rates_at(cs, cs['ne'], cs['te'])
     d = cs['nD'] / cs['ne']
-    others = sum(i * v for sp in cs['species'] for i, v in enumerate(sp))
-    if min(n) < 0:
+    if any(math.isnan(x) for x in n) or min(n) < 0:
         ctx.fail('C09:match_plasma_neutrality:negative-density', 'profile index %d: min density %r' % (k, min(n)), dict(index=k, **desc))
         return
-    if others <= cs['ne'] * (1 - 1e-9):
-        charge = sum(z * n[z] for z in range(Z + 1))
-        if abs(charge + others - cs['ne']) > S_TOL * cs['ne']:
-            ctx.fail('C09:match_plasma_neutrality:neutrality', 'profile index %d: element charge %r + species %r != n_e %r' % (k, charge, others, cs['ne']), dict(index=k, **desc))
+    pb = neutrality_problem(cs['species'], cs['ne'], n)
+    if pb:
+        ctx.fail('C09:match_plasma_neutrality:neutrality', 'profile index %d: %s' % (k, pb), dict(index=k, **desc))
+    if sum(n) > 0:
         tot = sum(n)
         for tag, text in check_fractions([x / tot for x in n], S, A, C, d, cs['donor']):
             if tag in ('range', 'sum'):
@@ -1262,6 +1314,266 @@ def _equilibrium_checks(ctx, env, case, el, donor, psin, ne_o, te_o, nd_arg, den
             ctx.fail('C09:%s:differs-from-scalar-call' % name,
                      '%s differs from the %s interpolation over psi_n of point-by-point scalar calls of %s by %.3g (relative to the largest '
                      'value; profile mode %s)' % (name, order, direct_name, dev, mode), desc)
+
+
+# ---------------------------------------------------------------------------------------------------------------
+# extreme regimes (almost neutral / almost stripped elements, n_e over 14 decades, species carrying 0 .. >100 % of n_e,
+# exact zeros in individual rates)
+# ---------------------------------------------------------------------------------------------------------------
+def gen_extreme_case(rng, i):
+    Z = rng.choice([1, 1, 1, 2, 2, 3, 6])
+    base = 10 ** rng.uniform(-15, -13)
+    regime = ['neutral', 'stripped', 'neutral-zeros', 'moderate'][i % 4]
+    s = [base * rng.uniform(0.5, 2) for _ in range(Z)]
+    a = [base * rng.uniform(0.5, 2) for _ in range(Z)]
+    c = [base * rng.uniform(0.5, 2) for _ in range(Z)]
+    if regime.startswith('neutral'):
+        # cold, recombining: ionisation of the neutral 6 .. 14 decades below recombination -> mean charge 1e-6 .. 1e-14
+        s[0] = a[0] * 10 ** (-rng.uniform(6, 14))
+    elif regime == 'stripped':
+        f = 10 ** rng.uniform(3, 7)
+        s = [v * f for v in s]
+    zero = []
+    if regime == 'neutral-zeros' or rng.random() < 0.25:
+        # exact zeros: no ionisation above some charge k >= 1, individual CX rates switched off
+        if Z >= 2:
+            k = rng.randint(1, Z - 1)
+            for z in range(k, Z):
+                s[z] = 0.0
+            zero.append('S[%d:]' % k)
+        j = rng.randrange(Z)
+        c[j] = 0.0
+        zero.append('C[%d]' % (j + 1))
+    ne = 10 ** rng.uniform(10, 24)
+    te = 10 ** rng.uniform(-1, 4)
+    donor = rng.random() < 0.5
+    nD = ne * 10 ** rng.uniform(-6, 0) if donor else 0.0
+    if regime.startswith('neutral') and donor:
+        nD = ne * 10 ** rng.uniform(-6, -2)
+    share = rng.choice(['none', 'small', 'almost-all', 'almost-all-9', 'exactly-all', 'slightly-more', 'more'])
+    frac = {'none': 0.0, 'small': rng.uniform(0.01, 0.5), 'almost-all': 1 - 1e-3, 'almost-all-9': 1 - 1e-9, 'exactly-all': 1.0,
+            'slightly-more': 1 + 1e-9, 'more': 1.5}[share]
+    species = []
+    if share != 'none':
+        if share == 'exactly-all':
+            species = [[0.0, ne / 2.0, ne / 4.0]]          # 1*(n_e/2) + 2*(n_e/4) = n_e exactly
+        else:
+            w = [rng.uniform(0.1, 1) for _ in range(rng.randint(1, 3))]
+            tot = sum((i + 1) * x for i, x in enumerate(w))
+            species = [[ne * rng.uniform(0, 0.1)] + [ne * frac * x / tot for x in w]]
+    return dict(Z=Z, s=s, a=a, c=c, p=0.0, q=0.0, ne=ne, te=te, nD=nD, donor=donor, dq=rng.choice([0, 1]),
+                donor_el=rng.choice(['hydrogen', 'deuterium', 'helium']), dens=ne * 10 ** rng.uniform(-6, -1), species=species,
+                family='extreme', regime=regime, share=share, zeros=zero, isotope=False)
+
+
+def run_extreme(ctx, env, n):
+    cases = [gen_extreme_case(ctx.rng, i) for i in range(n)]
+    for c in cases:
+        ctx.count('extreme:regime:' + c['regime'])
+        ctx.count('extreme:species-share:' + c['share'])
+        if c['zeros']:
+            ctx.count('extreme:exact-zero-rates')
+    ctx.extra['extreme_stream_problems'] = run_point_cases(ctx, env, cases, 'extreme')
+
+
+# ---------------------------------------------------------------------------------------------------------------
+# call sequences on shared provider objects: every entry point is a pure function of its arguments
+# ---------------------------------------------------------------------------------------------------------------
+SEQ_ENTRIES = ['fractional_abundance', 'from_elementdensity', 'match_plasma_neutrality',
+               'interpolators1d_fractional', 'interpolators1d_from_elementdensity', 'interpolators1d_match_plasma_neutrality',
+               'interpolators2d_fractional', 'interpolators2d_from_elementdensity', 'interpolators2d_match_plasma_neutrality',
+               'equilibrium_map3d_fractional', 'equilibrium_map3d_from_elementdensity', 'equilibrium_map3d_match_plasma_neutrality']
+SEQ_XS = [0.0, 0.5, 1.05]
+SEQ_YS = [0.1, 0.7]
+SEQ_EQ_POINTS = None
+
+
+def _seq_eq_points(env):
+    global SEQ_EQ_POINTS
+    if SEQ_EQ_POINTS is None:
+        eq = env.equilibrium()
+        ax = eq.magnetic_axis
+        pts = []
+        for dr, dz in ((0.1, 0.0), (0.25, 0.2), (-0.2, -0.3), (0.35, -0.1)):
+            r, z = ax.x + dr, ax.y + dz
+            if eq.inside_lcfs(r, z) > 0.5:
+                pts.append((r * math.cos(0.3), r * math.sin(0.3), z))
+        SEQ_EQ_POINTS = pts
+    return SEQ_EQ_POINTS
+
+
+def seq_call(env, provider, step):
+    """one public call described by `step` on `provider`; returns (status, array [index, charge] | message)"""
+    ib = env.ib
+    case = step['case']
+    el = env.element(case)
+    donor = env.donor(case)
+    entry, form = step['entry'], step['form']
+    dq = case['dq']
+    pts = step['points']                      # list of dicts ne, te, nD, dens, species (one per index)
+    arr = lambda key: np.array([p_[key] for p_ in pts])      # noqa
+    if form == 'scalar':
+        ne, te, nd, dens = pts[0]['ne'], pts[0]['te'], pts[0]['nD'], pts[0]['dens']
+        species = [np.array(sp, dtype=float).reshape(-1, 1) for sp in pts[0]['species']]
+        fv = None
+    elif form == 'arr1':
+        ne, te, nd, dens = arr('ne'), arr('te'), arr('nD'), arr('dens')
+        species = [np.array([[p_['species'][j][zc] for p_ in pts] for zc in range(len(pts[0]['species'][j]))]) for j in range(len(pts[0]['species']))]
+        fv = np.array(SEQ_XS)
+    else:
+        shp = (len(SEQ_XS), len(SEQ_YS))
+        ne, te, nd, dens = (arr(k_).reshape(shp) for k_ in ('ne', 'te', 'nD', 'dens'))
+        species = [np.array([np.array([p_['species'][j][zc] for p_ in pts]).reshape(shp) for zc in range(len(pts[0]['species'][j]))])
+                   for j in range(len(pts[0]['species']))]
+        fv = (np.array(SEQ_XS), np.array(SEQ_YS))
+    nd_arg = nd if case['donor'] else None
+    Z = case['Z']
+    if entry == 'fractional_abundance':
+        st, r = guarded(ib.fractional_abundance, provider, el, ne, te, donor, nd_arg, dq)
+    elif entry == 'from_elementdensity':
+        st, r = guarded(ib.from_elementdensity, provider, el, dens, ne, te, donor, nd_arg, dq)
+    elif entry == 'match_plasma_neutrality':
+        st, r = guarded(ib.match_plasma_neutrality, provider, el, species, ne, te, donor, nd_arg, dq)
+    elif entry.startswith('interpolators'):
+        fn = getattr(ib, entry)
+        mid = {'fractional': (), 'from_elementdensity': (dens,), 'match_plasma_neutrality': (species,)}[entry.split('_', 1)[1]]
+        st, r = guarded(fn, provider, el, fv, *mid, ne, te, donor, nd_arg, dq)
+        if st == 'ok':
+            if form == 'arr1':
+                r = {z: np.array([f(x) for x in SEQ_XS]) for z, f in r.items()}
+            else:
+                r = {z: np.array([[f(x, y) for y in SEQ_YS] for x in SEQ_XS]) for z, f in r.items()}
+    else:
+        fn = getattr(ib, entry)
+        mid = {'fractional': (), 'from_elementdensity': (dens,), 'match_plasma_neutrality': (species,)}[entry.split('_', 2)[2]]
+        st, r = guarded(fn, provider, el, env.equilibrium(), fv, *mid, ne, te, donor, nd_arg, dq)
+        if st == 'ok':
+            r = {z: np.array([f(*pt) for pt in _seq_eq_points(env)]) for z, f in r.items()}
+    if st != 'ok':
+        return st, r
+    if sorted(r.keys()) != list(range(Z + 1)):
+        return 'bad-keys', str(list(r.keys()))
+    return 'ok', np.stack([np.asarray(r[z], dtype=float).reshape(-1) for z in range(Z + 1)], axis=1)
+
+
+def gen_sequence(rng, tables_by_provider):
+    """a sequence of public calls in which consecutive calls differ in few arguments (donor species, donor charge, donor
+    density, receiver element, provider object, entry point), including the exact pairs H -> He and He -> H"""
+    els = sorted(tables_by_provider[0].keys())
+    steps = []
+    cur = dict(prov=0, el=rng.choice(els), donor=True, donor_el='hydrogen', dq=0, entry=rng.choice(SEQ_ENTRIES), seed=rng.random())
+    L = rng.randint(4, 8)
+    for i in range(L):
+        if i > 0:
+            for what in rng.sample(['donor_el', 'dq', 'el', 'prov', 'entry', 'seed', 'donor'], rng.choice([1, 1, 2])):
+                if what == 'donor_el':
+                    cur['donor_el'] = rng.choice([d for d in DONOR_FACTOR if d != cur['donor_el']])
+                    cur['donor'] = True
+                elif what == 'dq':
+                    cur['dq'] = 1 - cur['dq']
+                elif what == 'el':
+                    cur['el'] = rng.choice([e for e in els if e != cur['el']])
+                elif what == 'prov':
+                    cur['prov'] = 1 - cur['prov']
+                elif what == 'entry':
+                    cur['entry'] = rng.choice(SEQ_ENTRIES)
+                elif what == 'seed':
+                    cur['seed'] = rng.random()
+                else:
+                    cur['donor'] = not cur['donor']
+            if rng.random() < 0.5:
+                cur['entry'] = rng.choice(SEQ_ENTRIES)
+        import random
+        r2 = random.Random(cur['seed'])             # the plasma point(s): unchanged unless `seed` was redrawn
+        tab = tables_by_provider[cur['prov']][cur['el']]
+        case = dict(tab, donor=cur['donor'], donor_el=cur['donor_el'], dq=cur['dq'], species=[], isotope=False)
+        entry = cur['entry']
+        if entry.startswith('interpolators1d') or entry.startswith('equilibrium'):
+            form = 'arr1'
+        elif entry.startswith('interpolators2d'):
+            form = 'arr2'
+        else:
+            form = r2.choice(['scalar', 'arr1', 'arr2'])
+        npts = {'scalar': 1, 'arr1': len(SEQ_XS), 'arr2': len(SEQ_XS) * len(SEQ_YS)}[form]
+        ne0, te0 = 10 ** r2.uniform(17, 21), 10 ** r2.uniform(0, 4)
+        pts = []
+        for k in range(npts):
+            ne = ne0 * r2.uniform(0.5, 2)
+            pts.append(dict(ne=ne, te=te0 * r2.uniform(0.5, 2), nD=(ne * 10 ** r2.uniform(-3, 0) if cur['donor'] else 0.0),
+                            dens=ne * r2.uniform(1e-4, 1e-2), species=[[ne * r2.uniform(0, 0.05), ne * r2.uniform(0, 0.05)]]))
+        steps.append(dict(case=case, entry=entry, form=form, points=pts, provider=cur['prov'], element=cur['el']))
+    return steps
+
+
+def run_sequences(ctx, env, n):
+    """standing oracle: the k-th call on provider objects shared with all earlier calls equals the same call on fresh provider
+    objects (S), and the stateless model (K, per index; equilibrium maps: S only)"""
+    rng = ctx.rng
+    lines, todo = [], []
+    for it in range(n):
+        names = ['hydrogen', 'helium', rng.choice(['carbon', 'neon', 'lithium'])]
+        zof = {e.name: e.atomic_number for e in env.elements}
+        tables = []
+        for _ in range(2):
+            tb = {}
+            for nm in names:
+                c = gen_point_case(rng, Z=zof[nm])
+                tb[nm] = {k: c[k] for k in ('Z', 's', 'a', 'c', 'p', 'q')}
+            tables.append(tb)
+        shared = [env.Mock(None, tables=t) for t in tables]
+        steps = gen_sequence(rng, tables)
+        if it == 0:      # the two exact orders of the donor pair on one provider, everything else equal
+            base = steps[0]
+            mk = lambda d_el, dq_: dict(base, case=dict(base['case'], donor=True, donor_el=d_el, dq=dq_),          # noqa
+                                        points=[dict(p_, nD=p_['ne'] * 0.1) for p_ in base['points']])
+            steps = [mk('hydrogen', 0), mk('helium', 0), mk('hydrogen', 0), mk('deuterium', 0), mk('hydrogen', 1), mk('helium', 1)] + steps
+        hist = []
+        for k, step in enumerate(steps):
+            case = step['case']
+            desc_step = dict(entry=step['entry'], form=step['form'], provider=step['provider'], element=step['element'], donor=case['donor'],
+                             donor_el=case['donor_el'], donor_charge=case['dq'])
+            hist.append(desc_step)
+            st, res = seq_call(env, shared[step['provider']], step)
+            st2, fresh = seq_call(env, env.Mock(None, tables=tables[step['provider']]), step)
+            ctx.case(key=('sequence', it, k, step['entry'], case['donor_el'], case['dq'], step['element'], step['provider']),
+                     sample=dict(stream='sequence', history=list(hist)) if (k == len(steps) - 1 and rng.random() < 0.3) else None)
+            ctx.count('sequence:' + step['entry'])
+            desc = dict(kind='sequence', tables=tables, history=list(hist), step=step)
+            if st != st2 or (st == 'ok' and res.shape != fresh.shape):
+                ctx.fail('C09:%s:call-on-shared-provider:status' % step['entry'],
+                         'call %d of a sequence: %s on the shared provider, %s on a fresh one; history %r' % (k, st, st2, hist), desc)
+                continue
+            if st != 'ok':
+                if st.startswith('timeout'):
+                    ctx.fail(SIG_NOTERM if st == 'timeout-lsq' else 'C09:%s:timeout' % step['entry'], 'sequence call: no result', desc)
+                else:
+                    ctx.fail('C09:%s:raised-%s:sequence' % (step['entry'], st), 'sequence call raised %s: %s' % (st, res), desc)
+                continue
+            sc = float(np.max(np.abs(fresh))) or 1.0
+            dev = float(np.max(np.abs(res - fresh))) / sc
+            if not dev <= 1e-12:
+                ctx.count('S-fail:shared-provider')
+                prev = hist[-2] if len(hist) > 1 else None
+                ctx.fail('C09:%s:depends-on-earlier-calls' % step['entry'],
+                         '%s (element %s, donor %s, donor charge %d, provider %d) returns something else after earlier calls on the same '
+                         'provider object than on a fresh provider: max difference %.3g (relative to the largest value); previous call: %r'
+                         % (step['entry'], step['element'], case['donor_el'] if case['donor'] else None, case['dq'], step['provider'], dev, prev), desc)
+            if not step['entry'].startswith('equilibrium'):
+                which = 3 if 'match' in step['entry'] else (2 if 'from_elementdensity' in step['entry'] else 1)
+                for j, p_ in enumerate(step['points']):
+                    cs = dict(case, ne=p_['ne'], te=p_['te'], nD=p_['nD'], dens=p_['dens'], species=p_['species'])
+                    lines.append(point_lines(cs)[which])
+                    todo.append((cs, res[j].tolist(), which, desc, j))
+    if lines:
+        outs = ctx.driver(lines)
+        for (cs, impl, which, desc, j), o in zip(todo, outs):
+            mod = [b2f(t) for t in o.split()]
+            sc = {1: 1.0, 2: cs['dens'], 3: max(max(abs(x) for x in mod), 1e-300) * _mn_amplification(mod)}[which]
+            ctx.traces += 1
+            ctx.count('K:sequence')
+            if len(mod) != len(impl) or not all(abs(x - y) <= K_TOL * sc for x, y in zip(mod, impl)) or (which == 3 and not mn_charge_agrees(mod, impl)):
+                ctx.disagreements += 1
+                ctx.broke('correspondence', 'C09 stream sequence', dict(index=j, model=mod, implementation=impl, **desc))
 
 
 # ---------------------------------------------------------------------------------------------------------------
@@ -1357,6 +1669,8 @@ def run(ctx):
     run_profiles(ctx, env, ctx.n(120, 4000))
     run_malformed(ctx, env)
     run_entry_agreement(ctx, env, ctx.n(24, 300))
+    run_extreme(ctx, env, ctx.n(80, 2000))
+    run_sequences(ctx, env, ctx.n(12, 150))
     # 7. solver robustness on wide-range rate tables (S only)
     wide = [gen_point_case(ctx.rng, wide=True) for _ in range(ctx.n(40, 500))]
     for c in wide:
@@ -1382,7 +1696,7 @@ def exec_point_frac_only(env, case):
     _LIMIT[0] = WIDE_LIMIT
     try:
         st, r = guarded(env.ib.fractional_abundance, ad, env.element(case), case['ne'], case['te'],
-                        tcx_donor=env.hydrogen if case['donor'] else None,
+                        tcx_donor=env.donor(case),
                         tcx_donor_n=case['nD'] if case['donor'] else None, tcx_donor_charge=case['dq'])
     finally:
         _LIMIT[0] = CALL_LIMIT
